@@ -285,6 +285,43 @@ def run_shard(ctx):
                 ps["survey"] = (h, rows)
                 ctx.ctr("pipe_text_cases")
                 compare_all(ctx, form, ps, sig, "pipes-in-cell", ["csv", "xlsx"], rng, all_channels=True)
+        # (2f) a header cell that the spreadsheet stores as a number or a boolean (a year, a code): a column like any other unknown column
+        if i % 4 == 3:
+            hs = copy.deepcopy(sheets)
+            shn = rng.choice([s for s in ("survey", "settings") if s in hs])
+            h, rows = hs[shn]
+            hv = rng.choice([2024, 3.0, 2.5, True, 0])
+            h.append(hv)
+            for r in rows:
+                r.append(rng.choice([None, "x", 5]))
+            ctx.ctr("typed_header_cases")
+            compare_all(ctx, form, hs, sig, "typed-header", ["xlsx", "xls"], rng)
+        # (2g) blank spacer rows on the other sheets (entities, external_choices, settings): not data on any of them
+        if i % 5 in (0, 1):
+            bs = copy.deepcopy(sheets)
+            if "entities" not in bs and i % 5 == 1:
+                bs["entities"] = (["list_name", "label"], [["ent", "'x'"]])
+            touched = 0
+            for shn in ("entities", "external_choices", "settings"):
+                if shn in bs:
+                    h, rows = bs[shn]
+                    pos = rng.randint(0, len(rows) - (1 if shn != "external_choices" else 0)) if rows else 0
+                    rows[pos:pos] = [[None] * len(h) for _ in range(rng.choice([1, 2]))]
+                    touched += 1
+            if touched:
+                ctx.ctr("blank_rows_on_other_sheets_cases")
+                nb = copy.deepcopy(sheets)
+                if "entities" in bs and "entities" not in nb:
+                    nb["entities"] = (["list_name", "label"], [["ent", "'x'"]])
+                ref = drive.call_convert(render.to_dict(nb), **form.args)  # the same workbook without the spacer rows
+                for fmt in ("xlsx", "xls", "dict"):
+                    o = drive.convert_sheets(bs, fmt=fmt, args=dict(form.args), render_kw={"typed": True} if fmt != "dict" else None)
+                    ctx.ctr("renderings_compared")
+                    ctx.case(sig=f"{sig}|{fmt}|blank-rows-other-sheets")
+                    d = outcome_diff(ref, o)
+                    if d:
+                        ctx.viol(f"differs:{fmt}:content:blank-rows-other-sheets:{d[0]}", f"[{fmt}] blank spacer rows on entities/external_choices/settings change the result ({d[0]}): {d[1]}"[:900],
+                                 common.witness(form, fmt=fmt, channel="auto", variant="blank-rows-other-sheets", sheets=_jsonable(bs)))
         # (3) empty runs
         k = rng.choice([1, 2, 59, 60, 60])
         sh = rng.choice([s for s in ("survey", "choices") if s in sheets and len(sheets[s][1]) > 1])
